@@ -8,7 +8,7 @@ import (
 	"verif/harness/world"
 )
 
-var c04Vary = []string{"", "X-A", "X-B", "X-A, X-B", "X-A|X-B", "X-B|X-A", "Accept-Encoding|X-A", "|X-A", "x-b ,X-A", "Accept-Encoding", "Accept-Language", "*", "X-A, *", "X-A,X-B", "Authorization", "Authorization, X-A", "Cookie", "User-Agent"}
+var c04Vary = []string{"", "X-A", "X-B", "X-A, X-B", "Accept", "Accept, X-A", "X-Token", "X-A|X-B", "X-B|X-A", "Accept-Encoding|X-A", "|X-A", "x-b ,X-A", "Accept-Encoding", "Accept-Language", "*", "X-A, *", "X-A,X-B", "Authorization", "Authorization, X-A", "Cookie", "User-Agent"}
 var c04Pieces = []string{"", "1", "2", "X-A", "X-B", "1X-B2", " 1", "1 ", "a,b", "b, a", "GZIP", "gzip", "x-gzip", "en;q=0.5", "en", ",", "caf$XE9", "caf$XE8", "caf$XC3$XA9", "caf%E9", "caf%e8", "$XEF$XBF$XBD", "636166e9"}
 
 // values of fields with a structure of their own (credentials, cookies, product tokens)
@@ -124,7 +124,23 @@ func C04(t *rapid.T) *world.Scenario {
 			{"$XFF", "$XFE"}, {"$XFF$XFE", "$XFE$XFF"}, {"x$XE9y$XE9", "x$XE9y%E9"}}
 		pr := pairs[rapid.IntRange(0, len(pairs)-1).Draw(t, "twinpair")]
 		f := Pick(t, "twinfield", "X-A", "X-A", "X-B", "Cookie", "User-Agent")
+		if Pct(t, "twinweights", 25) {
+			// list fields with parameters and weights: members that differ in a parameter are
+			// different members; a list that only refuses ("identity;q=0") is not "no field"
+			wp := [][3]string{{"Accept", "application/json;version=1, application/json;version=2", "application/json;version=1"},
+				{"Accept", "application/json;version=1", "application/json;version=2"}, {"Accept", "text/html;level=1", "text/html;level=2, text/html;level=1"},
+				{"Accept-Encoding", "identity;q=0", ""}, {"Accept-Encoding", "gzip;q=0, identity;q=0.0", ""}, {"Accept-Language", "*;q=0", ""}}
+			w := wp[rapid.IntRange(0, len(wp)-1).Draw(t, "twinwp")]
+			f, pr = w[0], [2]string{w[1], w[2]}
+		}
+		if Pct(t, "twincollide", 10) {
+			// two values whose variant hashes (64-bit FNV-1a over name NUL value NUL) collide
+			f, pr = "X-Token", [2]string{"be3b8f25f564851f", "a4195c504bac54dc"}
+		}
 		pool = [][][2]string{{H(f, pr[0])}, {H(f, pr[1])}, {H(f, pr[0]), H("X-Z", "1")}}
+		if pr[1] == "" {
+			pool[1] = [][2]string{H("X-Z", "2")} // the field is absent
+		}
 	} else if Pct(t, "family", 40) {
 		// re-splits of one string: the same characters distributed differently over the
 		// nominated fields (an identity derived from undelimited text cannot tell them apart)
@@ -209,7 +225,9 @@ func C19(t *rapid.T, n int) *world.Scenario {
 		// a nominated header value with a byte that is not valid UTF-8 (obs-text is legal)
 		combos = append(combos, [][2]string{H("X-A", "caf$XE9")})
 	}
-	varyPool := []string{"", "X-A", "*", "X-A, X-B", "X-B", "X-A, *", "*, X-B", "X-A|X-B", "If-None-Match", "X-A, If-Modified-Since"}
+	varyPool := []string{"", "X-A", "*", "X-A, X-B", "X-B", "X-A, *", "*, X-B", "X-A|X-B", "If-None-Match", "X-A, If-Modified-Since",
+		// members that are no field names at all (bytes outside ASCII): legal in a field value
+		"*, X-Gr$XF6$XDFe", "X-A, X-Gr$XF6e"}
 	nv := rapid.IntRange(1, 3).Draw(t, "nvary")
 	varies := make([]string, nv)
 	for i := range varies {
